@@ -195,6 +195,9 @@ type Failure struct {
 	Clause string `json:"clause"` // stable id, e.g. C08/lost-item
 	Key    string `json:"key"`    // shape of the minimal trigger, used to match known findings
 	Msg    string `json:"msg"`
+	// budgetVerdict: the failure says "did not end within the step budget"; execCase confirms
+	// it with a much longer fair tail before it counts
+	budgetVerdict bool
 }
 
 func (f *Failure) String() string { return f.Clause + " [" + f.Key + "] " + f.Msg }
@@ -246,6 +249,7 @@ type Env struct {
 	KnownHit map[string]string // key -> what, findings met (and resynchronised) by this run
 	ArmSeed  uint64
 	ArmPct   int // percentage of statement sites armed as preemption points
+	tailScale int // >1: the fair round-robin tail of every simulation is that many times longer (confirmation run)
 	hash     uint64
 	SimTime  time.Duration
 }
@@ -319,7 +323,7 @@ func (e *Env) Sim(opts SimOpts, main func()) *simrt.Result {
 	cfg := simrt.Config{
 		Chooser:   e.chooser(),
 		MaxSteps:  opts.MaxSteps,
-		FairSteps: opts.FairSteps,
+		FairSteps: opts.FairSteps * max(1, e.tailScale),
 		KeepLog:   e.keepLog,
 		NoRace:    opts.NoRace,
 	}
@@ -384,7 +388,9 @@ func (e *Env) SimFailure(prefix string, res *simrt.Result) *Failure {
 		return &Failure{Clause: "", Msg: "step budget exhausted while the main task was still making progress"}
 	}
 	if res.Livelock {
-		return failf(prefix+"/no-termination", "", "no termination under a fair schedule: %s", strings.Join(res.Blocked, "; "))
+		f := failf(prefix+"/no-termination", "", "no termination under a fair schedule: %s", strings.Join(res.Blocked, "; "))
+		f.budgetVerdict = true
+		return f
 	}
 	return nil
 }
@@ -455,6 +461,21 @@ func execCase(t *testing.T, p *Prop, in interface{}, meta caseMeta, ch *chooser,
 		}
 	}()
 	cr.fail = p.Run(in, env)
+	if cr.fail != nil && cr.fail.budgetVerdict {
+		// "did not end within the budget" is only believed if the very same execution (same
+		// input, same choices) still does not end with a fair tail 40 times as long; a long
+		// but finite run is inconclusive, never a violation
+		cenv := &Env{T: t, ch: &chooser{mode: modeLoose, in: ch.out}, Tier: tier, Counters: map[string]int{}, stats: &runStats{},
+			KnownHit: map[string]string{}, ArmSeed: meta.ArmSeed, ArmPct: meta.ArmPct, known: knownLookup(p.ID), tailScale: 40}
+		simrt.SoloDraw = cenv.ch.Draw
+		cf := p.Run(cloneInput(p, in), cenv)
+		simrt.SoloDraw = ch.Draw
+		if cf == nil || !cf.budgetVerdict {
+			cr.fail = &Failure{Clause: "", Msg: "no termination within the step budget, but the same execution ends when the fair tail is 40 times longer"}
+		} else {
+			env.Count("probe.no-termination-confirmed-with-40x-tail")
+		}
+	}
 	if cr.fail != nil && cr.fail.Clause == "" {
 		env.Count("probe.inconclusive:" + cr.fail.Msg)
 		cr.fail = nil
